@@ -1,4 +1,5 @@
 import DoltVerif.Lemmas.VcsOpsDb
+import DoltVerif.Lemmas.VcsOpsWfb
 /-!
 C31 — Cherry-pick, revert and rebase obey their merge definitions.
 
@@ -464,5 +465,34 @@ theorem abort_start (d : Db) (hd : d.WF) (kind : MergeKind) (midW midS : Root)
     by_cases e : cur = a
     · subst e; simp [hws]
     · simp [e]
+
+/-! ### non-vacuity: the hypotheses of the theorems above hold on a concrete history (`exDb`:
+two tables, a column added on `main`, a second branch with its own commit) -/
+
+example : exDb.wfb = true := by decide +kernel
+
+/-- `cherry_pick_def`: cherry-picking commit 3 (made on `other`) onto `main` succeeds -/
+example : (exDb.cherryPick ⟨.commit 3, 0⟩).1 = .ok := by decide +kernel
+
+/-- `cherry_pick_onto_own_parent`: on `other` reset to commit 1, commit 3's parent is HEAD, the
+working set is clean and commit 3 is not empty -/
+example :
+    let d := (exDb.apply (.checkout "other")).2.apply (.resetHard (some ⟨.commit 1, 0⟩)) |>.2
+    d.wfb = true ∧ d.headId = 1 ∧ d.clean = true ∧ d.ws.merge = none ∧
+      (d.commit? 3).map (·.parents) = some [1] ∧ (d.commit? 3).map (·.root) ≠ some (d.rootOf 1) := by
+  decide +kernel
+
+/-- `revert_latest` / `revert_def`: HEAD of `main` (commit 2) has parent 1 with different data -/
+example : get exDb.branches exDb.cur = some exDb.headId ∧ exDb.clean = true ∧ exDb.ws.merge = none ∧
+    (exDb.commit? exDb.headId).map (·.parents) = some [1] ∧ exDb.rootOf 1 ≠ exDb.headRoot ∧
+    (exDb.revert ⟨.head, 0⟩).1 = .ok := by decide +kernel
+
+/-- `rebase_plan_eq_fold`: rebasing `other` (one commit) onto `main` with the plan [reword] succeeds -/
+example : ((exDb.apply (.checkout "other")).2.rebase ⟨.branch "main", 0⟩ [.reword "r"]).1 = .ok := by
+  decide +kernel
+
+/-- `abort_start`: `exDb` has no staged changes and no merge in progress -/
+example : get exDb.wss exDb.cur = some exDb.ws ∧ exDb.ws.merge = none ∧ exDb.ws.staged = exDb.headRoot := by
+  decide +kernel
 
 end DoltVerif.C31
